@@ -271,3 +271,14 @@ func init() {
 		ruleKeyedListTemplates(c, r)
 	})
 }
+
+func init() {
+	register("C33", func(c *Ctx, r *Report) {
+		r.Decides("PopulateDefaults (template expansion and the 30 compiled methods) writes a leaf only under the unset test of that leaf with a fresh default literal, writes exactly the leaves carrying a default, and descends into every container/list/ordered-list child; the Go literal of a default is %q-quoted or parsed-then-raw text, validated against the type's restrictions at generation time; key-statement membership is never a substring test (defaults are dropped or kept per leaf, not per name fragment).",
+			"that the default literal denotes the YANG default for every type at value level; validity of arbitrary trees after population (only the generation-time validation of the default itself is decided).")
+		ruleDefaultsTemplate(c, r)
+		ruleDefaultsCorpus(c, r)
+		ruleGoLiteral(c, r)
+		ruleKeyMember(c, r)
+	})
+}
